@@ -105,6 +105,23 @@ def eval_case(cfg, verdict, work):
             try:
                 md_items, state = isetup.setup_internal(config)
                 import copy
+                # the accepted fields are the ones the ensembles are built from
+                intf = [pos(k) for k in cfg["intf"]]
+                want0 = (cfg["lm1"] / 2.0, (cfg["lm1"] / 2.0 + intf[0]) / 2, intf[0]) if cfg["lm1"] != NONE else (float("-inf"), intf[0], intf[0])
+                got0 = tuple(state.ensembles[0]["interfaces"])
+                if got0 != want0:
+                    fails.append(("init:ensemble0-interfaces", f"[0-] was given the interfaces {got0}, the configuration (lambda_minus_one = "
+                                  f"{cfg['lm1'] / 2.0 if cfg['lm1'] != NONE else 'absent'}) asks for {want0}"))
+                for i in range(1, len(intf)):
+                    want = (intf[0], intf[0] if i == 1 else intf[i - 1], intf[-1])
+                    if tuple(state.ensembles[i]["interfaces"]) != want:
+                        fails.append(("init:ensemble-interfaces", f"ensemble {i} was given {tuple(state.ensembles[i]['interfaces'])}, expected {want}"))
+                want_cap = cfg["cap"] / 2.0 if cfg["cap"] != NONE else None
+                got_cap = state.ensembles[1]["tis_set"].get("interface_cap", None)
+                if (got_cap if got_cap is not False else None) != want_cap:
+                    fails.append(("init:cap", f"the ensembles carry interface_cap = {got_cap}, the configuration says {want_cap}"))
+                if state.n != len(intf) + 1 or state.workers != cfg["workers"] or [state.ensembles[i]["mc_move"] for i in range(len(intf))] != list(cfg["moves"])[:len(intf)]:
+                    fails.append(("init:shape", "ensemble count, worker count or moves differ from the configuration"))
                 npick = 0
                 while state.initiate():
                     state.prep_md_items(copy.deepcopy(md_items))
@@ -201,11 +218,11 @@ def main(tier, replay=None):
     work = common.tmpdir("c18-")
     try:
         os.symlink(os.path.join(tlc.SPEC_DIR, "Config.tla"), os.path.join(work, "Config.tla"))
-        iv, mi = ("0..2", 3) if q else ("0..3", 4)
+        iv, mi = ("-1..1", 3) if q else ("-1..2", 4)      # interface k sits at k + 0.5: negative, and values around zero
         wv = "0..3" if q else "0..4"
         ml = "{0, 2, 3, 4}" if q else "{0, 2, 3, 4, 5}"
-        capv = "{None, 0, 1, 2, 3, 5, 6}" if q else "{None, 0, 1, 2, 3, 4, 5, 7, 8}"
-        lm = "{None, -1, 1, 2}"
+        capv = "{None, -2, -1, 0, 1, 3, 4}" if q else "{None, -2, -1, 0, 1, 2, 3, 5, 6}"        # half steps: interface k is 2k + 1
+        lm = "{None, -3, 0, 1}" if q else "{None, -3, -2, 0, 1, 2}"
         with open(os.path.join(work, "MC_Config.tla"), "w") as fh:
             fh.write(f"---- MODULE MC_Config ----\nEXTENDS Config\nNoneDef == {NONE}\nIV == {iv}\nWV == {wv}\nML == {ml}\n"
                      f"CV == {capv.replace('None', str(NONE))}\nLV == {lm.replace('None', str(NONE))}\n====\n")
